@@ -78,7 +78,8 @@ impl TryFrom<&Number> for usize {
             Number::BigInt(bigint) => bigint.parse::<usize>(),
             Number::Integer(int) => int.parse::<usize>(),
             Number::Byte(byte) => byte.parse::<usize>(),
-            Number::Float(float) => unreachable!("not sure how to round {float}"),
+            // a float literal is not an index: report it like any other unparsable index
+            Number::Float(float) => float.parse::<usize>(),
         }
     }
 }
